@@ -36,7 +36,7 @@ class Loader:
         self.np = npm
         self.shims = {"numpy": npm, "numpy.random": self.np_random, "numpy.linalg": linalg,
                       "pandas": symlibs.make_pandas(), "h5py": symlibs.make_h5py(),
-                      "tqdm": symlibs.make_tqdm(), "math": symlibs.make_math()}
+                      "tqdm": symlibs.make_tqdm(), "math": symlibs.make_math(), "warnings": symlibs.make_warnings()}
         self.shims.update(symlibs.make_scipy())
         imp = types.ModuleType("importlib")
         imp.import_module = self._import_module
